@@ -223,6 +223,9 @@ def junk_line(draw, live_ids):
         lid = draw(st.sampled_from([str(i) for i in live_ids] or ["900"]))
         tail = draw(st.sampled_from(["%s D" % lid, "%s T" % lid, "%s H" % lid, "%s C 9.9.9.9 9 127.0.0.1 6667" % lid, "%s P :+x! a b" % lid,
                                      "-1 X alpha.ex %x_1 :NO go away" % int(lid), "%s N other.host" % lid]))
+        if draw(st.integers(0, 2)) == 0:
+            # ... or a bare CR (no LF after it) in the middle of the line: only LF or CR LF end a line
+            return head + draw(st.sampled_from([" :some text", "", " a b", " :x" * 40])) + draw(st.sampled_from(["\r", "\r\r", " \r", "\r "])) + tail
         fill = draw(st.sampled_from([" ", " ", "\t", " \t"])) * draw(st.sampled_from([600, 4090, 4100, 8190, 8200, 9000, 12300, 16500, 40000]))
         return head + " " + fill + tail
     if k == 0:   # unknown id, any non-C command
